@@ -17,6 +17,7 @@ TReset == IsEvent("Reset") /\ cat' = "none" /\ name' = "" /\ idx' = 0 /\ entered
 TGenbb == IsEvent("Genbb") /\ Dispatch(Log[l].cat, Log[l].name)
 TEnter == IsEvent("Enter") /\ RunScheme(Log[l].alpha = 1) /\ entered'[Len(entered')] = Log[l].s
 TSkip  == /\ l <= Len(Log) /\ Log[l].e \in {"Enter", "Exit"}
+          /\ phase = "run" /\ idx <= Len(Chain(cat, name))
           /\ (Log[l].e = "Enter" => Log[l].s # Chain(cat, name)[idx].s)
           /\ SkipDaughter /\ UNCHANGED l
 TExit  == IsEvent("Exit") /\ Finish
